@@ -39,6 +39,26 @@ def make_dims(fd, rng, ndim=None, allow_untyped_int=True, need_multi=True):
         if not need_multi or any(len(s[2]) > 1 for s in spec):
             break
     dims = fd.DimensionSet(dim_list=[fd.Dimension(letter=l, name=n, items=list(it), **({"dtype": dt} if dt is not None else {})) for l, n, it, dt in spec])
+    if rng.random() < 0.25:
+        # dimensions DERIVED from others that have been in use: the originals go through an export / import first, the ones handed out
+        # are pydantic copies of them with the items in another order (model_copy(update=...)) or plain shallow / deep copies
+        try:
+            warm = fd.FlodymArray(dims=dims, values=np.arange(float(int(np.prod(dims.shape)))).reshape(dims.shape))
+            fd.FlodymArray.from_df(dims=dims, df=warm.to_df(index=False))
+            [d.index(d.items[-1]) for d in dims]
+        except Exception:
+            pass
+        new_spec, new_dims = [], []
+        for (l, n, it, dt), d in zip(spec, dims):
+            how = int(rng.integers(0, 3))
+            if how == 0 and len(it) > 1:
+                it2 = [it[j] for j in rng.permutation(len(it))]
+                new_dims.append(d.model_copy(update={"items": list(it2)}))
+                new_spec.append((l, n, it2, dt))
+            else:
+                new_dims.append(d.model_copy() if how == 1 else d.model_copy(deep=True))
+                new_spec.append((l, n, list(it), dt))
+        spec, dims = new_spec, fd.DimensionSet(dim_list=new_dims)
     return spec, dims
 
 
@@ -237,7 +257,11 @@ def inject(df, spec, info, fault, rng, where):
         c = multi[int(rng.integers(0, len(multi)))]
         return df.drop(columns=[c]), {"column": str(c)}
     if fault == "junk_columns":
-        df["junk one"] = np.arange(n) * 0.5 + 70000.0
+        # a surplus numeric column; sometimes it carries the name arrays are given ("par" in the reader routes, the default "unnamed")
+        jname = ["junk one", "junk one", "par", "unnamed", "Par", "values"][int(rng.integers(0, 6))]
+        if jname in df.columns:
+            jname = "junk one"
+        df[jname] = np.arange(n) * 0.5 + 70000.0
         if not wide:
             pass
         else:
